@@ -38,6 +38,7 @@ mod readers;
 #[cfg(feature = "rv")]
 mod c10raw;
 mod anynum;
+mod c02;
 
 fn main() {
     let args: Vec<String> = std::env::args().collect();
@@ -129,6 +130,7 @@ fn main() {
     if prop == "C09" { readers::run(&mut sink, thorough, seed); }
     if prop == "C05" { readers::run(&mut sink, thorough, seed); }
     if prop == "C05" { c05::run_bytesctl(&mut sink, thorough, seed); }
+    if prop == "C02" { c02::run(&mut sink, thorough, seed); }
     sink.finish(stats);
 }
 
